@@ -779,6 +779,9 @@ class StmtMixin:
         return None
 
     def for_over(self, st, s, it):
+        if it is VNone or isinstance(it, VOpt):
+            return self.split_opt(st, it, lambda s_: self.raise_(s_, "TypeError", f"iteration over None at line {s.lineno}"),
+                                  lambda s_, inner: self.for_over(s_, s, inner))
         # static tuples are unrolled (their length is a constant of the program text)
         si = self.static_items_of(st, it)
         if si is not None:
